@@ -68,6 +68,9 @@ func tagAttach(tag int) string  { return fmt.Sprintf("ATTACH-%d", tag) }
 // buildRaw is the source of the message with content tag `tag`: tag%4 = 2 carries an HTML
 // alternative, tag%4 = 3 one attachment.
 func buildRaw(tag int) []byte {
+	if size, ok := sizeOfTag(tag); ok {
+		return sizedRaw(tag, size)
+	}
 	var b bytes.Buffer
 	fmt.Fprintf(&b, "From: %s\r\nTo: %s\r\nSubject: %s\r\nMIME-Version: 1.0\r\n", tagFrom(tag), tagTo(tag), tagSubject(tag))
 	switch tag % 4 {
@@ -85,6 +88,45 @@ func buildRaw(tag int) []byte {
 	return b.Bytes()
 }
 
+// The SIZE dimension: tags from 1000 on name a source of exactly sizedSizes[tag-1000] bytes — a plain message
+// (header, text) followed by numbered filler lines, cut at that length (so the two smallest are no message at all).
+// Spread over orders of magnitude and around powers of two; nothing here is derived from a limit in the code.
+var sizedSizes = []int{0, 1, 4095, 4096, 4097, 65535, 65536, 65537, 1 << 20, 10240000, 10256383, 10256384, 10256385, 12000000,
+	64 << 20, 257, 1000000, 16777215, 16777217, 33554433}
+
+func sizeOfTag(tag int) (int, bool) {
+	if tag >= 1000 && tag-1000 < len(sizedSizes) {
+		return sizedSizes[tag-1000], true
+	}
+	return 0, false
+}
+
+var sizedMemo = map[int][]byte{}
+
+func sizedRaw(tag, size int) []byte {
+	if b, ok := sizedMemo[tag]; ok {
+		return b
+	}
+	var b bytes.Buffer
+	b.Grow(size + 128)
+	fmt.Fprintf(&b, "From: %s\r\nTo: %s\r\nSubject: %s\r\nMIME-Version: 1.0\r\nContent-Type: text/plain; charset=us-ascii\r\n\r\n%s\r\n",
+		tagFrom(tag), tagTo(tag), tagSubject(tag), tagText(tag))
+	line := []byte(" the quick brown fox jumps over the lazy dog 0123456789 abcdefghij\r\n")
+	for n := 0; b.Len() < size; n++ {
+		b.WriteString(strconv.Itoa(n))
+		b.Write(line)
+	}
+	raw := b.Bytes()[:size:size]
+	if len(sizedMemo) >= 6 { // keep the memory bounded: a history uses a handful of sizes
+		for k := range sizedMemo {
+			delete(sizedMemo, k)
+			break
+		}
+	}
+	sizedMemo[tag] = raw
+	return raw
+}
+
 var subjRE = regexp.MustCompile(`^subj (\d+)$`)
 
 // Metadata shapes. What the store is told about a message (event.MessageMetadata) is a function of the content
@@ -92,7 +134,7 @@ var subjRE = regexp.MustCompile(`^subj (\d+)$`)
 // empty and long metadata. The source (buildRaw) keeps its plain MIME header in every shape.
 //
 //	1: To = []          2: From = empty address     3: Subject = ""     4: To = [one empty address]
-//	5: To = 60 addresses     6: To = [] and Subject = ""     7: From = empty address and To = []
+//	5: To = 60 / 2 / 257 / 1025 addresses (by tag%4)     6: To = [] and Subject = ""     7: From = empty address and To = []
 func shapeOf(tag int) int {
 	if tag < 400 {
 		return 0
@@ -100,7 +142,8 @@ func shapeOf(tag int) int {
 	return 1 + (tag/4)%7
 }
 
-const longTo = 60
+// recipients of the long-list shape: spread over orders of magnitude and next to powers of two
+func longTo(tag int) int { return []int{60, 2, 257, 1025}[tag%4] }
 
 func metaFrom(tag int) *mail.Address {
 	switch shapeOf(tag) {
@@ -117,7 +160,7 @@ func metaTo(tag int) []*mail.Address {
 	case 4:
 		return []*mail.Address{{}}
 	case 5:
-		l := make([]*mail.Address, longTo)
+		l := make([]*mail.Address, longTo(tag))
 		for i := range l {
 			l[i] = &mail.Address{Address: fmt.Sprintf("t%d-%d@dst.example", tag, i)}
 		}
@@ -375,8 +418,18 @@ func (e *env) listTok(hs []*jhdr) string {
 var tagInSrc = regexp.MustCompile(`(?m)^Subject: subj (\d+)\r?$`)
 
 func srcTok(b []byte) string {
-	m := tagInSrc.FindSubmatch(b)
+	head := b
+	if len(head) > 4096 {
+		head = head[:4096]
+	}
+	m := tagInSrc.FindSubmatch(head)
 	if m == nil {
+		// a source too short to hold its Subject line: one of the tiny sized sources, recognised by its bytes
+		for i, size := range sizedSizes {
+			if size < 128 && len(b) == size && bytes.Equal(b, buildRaw(1000+i)) {
+				return "S:" + strconv.Itoa(1000+i)
+			}
+		}
 		return "S:BAD"
 	}
 	tag, _ := strconv.Atoi(string(m[1]))
